@@ -315,7 +315,7 @@ def conclude(prop, tier, seed, plan, reports, crashed, hung, scratch, start, out
         if key in seen:
             continue
         seen.add(key)
-        print("VIOLATION property=%s replay=%s signature=%s :: %s" % (prop, v.get("replay", ""), v["signature"], v["what"][:600]))
+        print("VIOLATION property=%s replay=%s signature=%s :: %s" % (prop, v.get("replay", ""), v["signature"], " ".join(v["what"][:600].split())))
     print("SUMMARY property=%s tier=%s seed=%d evaluations=%d distinct_nontrivial=%d commits=%d api_ops=%d interleavings=%d violations=%d known=%d wall=%.1fs" % (
         prop, tier, seed, ev, len(nontrivial), commits, ops, len(inter), len(unknown), len(knownhit), time.time() - start))
     if unknown:
